@@ -98,7 +98,7 @@ def handleRt (m : Impl) (a : Arguments) : String :=
 def handleToPy (m : Impl) (a : Arguments) : String :=
   let (nd, wd) := splitKwonly a
   let split := showList (nd.map showParam) ++ "/" ++ showList (wd.map fun (p, d) => s!"{showParam p}={d}")
-  s!"in={showArguments a} to={showPy (m.toPy a)} into={showPy (m.intoPy a)} from={showPy (m.fromArgs a)} split={split}"
+  s!"in={showArguments a} to={showPy (m.toPy a)} into={showPy (m.intoPy a)} from={showPy (m.fromArgs a)} split={split} defs={showList ((defaults a).map toString)}"
 
 def handle (m : Impl) : List String → String
   | ["rt", mode, sig] =>
